@@ -201,6 +201,20 @@ func (e *enc) run() {
 	for _, b := range e.rpo() {
 		e.block(b)
 	}
+	if e.fc != nil && !e.discover {
+		for _, nc := range e.fc.NeverCalls {
+			for _, f := range strings.Fields(nc.Callee) {
+				g := "true"
+				if e.callOrd[f] > 0 {
+					g = "false"
+				}
+				saved := e.curReach
+				e.curReach = "true"
+				e.oblige1("assert", "never-calls "+f+" "+clauseName(nc), nc.Props, nc.Src, g, token.NoPos)
+				e.curReach = saved
+			}
+		}
+	}
 	// vacuity guard: a call-site or loop clause that names a call site / loop the function does not have states nothing
 	if e.fc != nil && !e.discover {
 		for _, ca := range e.fc.CallAsrt {
